@@ -41,7 +41,7 @@ if bad:
     head = ("**Still not caught with a concrete input** (from the table above; `missed` = `./check` exits 0 on the "
             "seeded tree, `nfif` = the check fails through a divergence or a broken fact without a replayable failing "
             "input). " + f"All other {n - len(bad)} seeds, of every round, are caught with a replay. " +
-            ("The exceptions are seeds of the last round (O/P) whose follow-up ran out of time. " if all(x.split('-')[1] in 'OP' for x, _ in bad) else "") +
+            ("The exceptions are seeds of the last round (Q/R), most of which had no follow-up: they are the measured residue. " if all(x.split('-')[1] in 'QR' for x, _ in bad) else "") +
             "The rows below are the work list:")
     still = '\n'.join(__import__('textwrap').wrap(head, 99)) + '\n\n' + '\n'.join(items)
 else:
